@@ -6,7 +6,7 @@
    every event list: clause 602 of c06_check never fails on a model trace (c06_reactions_hold_on_every_trace).
    The reject shape (603: RefSeqNum, reversed routing) and the gates 601/604 are evaluated on every trace (`_partial`). *)
 From Coq Require Import ZArith List Bool.
-From QF Require Import Base.Bytes Session.Types Session.Model Session.Spec Session.LocalProofs Session.TraceProofs Session.ReactionProofs.
+From QF Require Import Base.Bytes Session.Types Session.Model Session.Spec Session.LocalProofs Session.TraceProofs Session.ReactionProofs Session.RejectShapeProofs.
 Import ListNotations.
 Open Scope Z_scope.
 
@@ -50,3 +50,16 @@ Proof. exact reaction_step. Qed.
 Theorem c06_reactions_hold_on_every_trace : forall c es,
   free_of [602] (c06_check c (combine es (map obs_of (run_trace es (init_sess c))))) = true.
 Proof. exact c06_reactions_never_fail. Qed.
+
+(* the shape of every Reject written in such a step, for every message: RefSeqNum quotes the offending MsgSeqNum (absent
+   when the message has no readable number), the header carries exactly the message's routing fields reversed
+   (OnBehalfOf <-> DeliverTo, SenderSub/Location <-> TargetSub/Location, and 144/145 above FIX.4.0) *)
+Theorem c06_reject_shape_for_every_message : forall s m,
+  s_st s = SInSession -> s_out_open s = true -> s_to_send s = [] -> gated_type (mi_type m) = true ->
+  forallb (fun w => negb (is_type T_REJECT w) || c06_reject_shape m w) (ob_wire (obs_of (step s (EIncoming m)))) = true.
+Proof. exact reject_shape_step. Qed.
+
+(* TRACE LEVEL: clause 603 never fails on the model's trace, for every configuration and every event list *)
+Theorem c06_reject_shape_holds_on_every_trace : forall c es,
+  free_of [603] (c06_check c (combine es (map obs_of (run_trace es (init_sess c))))) = true.
+Proof. exact c06_reject_shape_never_fails. Qed.
